@@ -195,6 +195,17 @@ pub fn run(tier: Tier, rep: &mut Report) -> (String, String) {
             r.sample(|| format!("input {s:?} x all {} delimiters x 8 iterator kinds (str) / 6 (char)", ds.len()));
         }));
     }
+    // long inputs (8..=9 bytes, t ..=10) over a delimiter, its two neighbours in value (d ^ 1 and d + 1) and a filler, with one-byte
+    // delimiters: the shapes on which a word-at-a-time byte search differs from a byte loop (borrow into the next byte)
+    if tier != Tier::Miri {
+        let maxl = tier.pick(9, 10, 0);
+        let ls: Vec<String> = strings_over(&[",", "-", "a"], maxl).into_iter().filter(|s| s.len() >= 8).collect();
+        bounds += &format!("long family: all strings of 8..={maxl} bytes over [',', '-', 'a'] ({}) x delimiters [',', '-']; ", ls.len());
+        rep.merge(par_each(&ls, th, |s, r| {
+            both(r, s, ",");
+            both(r, s, "-");
+        }));
+    }
     // boundary-complete chars as delimiter and as content
     let chars = char_set(if tier == Tier::Thorough { Tier::Quick } else { tier });
     let step = if tier == Tier::Miri { 40 } else { 1 };
